@@ -20,9 +20,11 @@
                                               first_hop_duplicate_late_resend_rejected,
                                               every_hop_keyed_with_selected,
                                               no_outsider_holds_hop_keys (all histories)
+    "the hop list names exactly the peers it selected, in order" (as a path) → no_first_hop_retry_after_first_hop,
+                                              timeout_after_first_hop_sends_no_create, extend_goes_to_named_key
     "never changes an already established hop" → step_hops_append_only, hops_append_only, answer_touches_one_circuit
                                               (originator side); joined_ids_disjoint_partial, joined_keys_stable_partial,
-                                              relay_route_stable, joined_state_stable_partial,
+                                              relay_route_stable, joined_state_stable_partial, joined_state_stable_default_policy,
                                               pairing_under_used_id_refused (responder / relay side)
 -/
 import Ipv8.C08.Lemmas
@@ -830,5 +832,75 @@ example :
       .created 88 999 (some ⟨21, 0⟩) (.junk 5) (.junk 6) ⟨0, 0, none⟩])
     ((step Free r1 (.created 87 998 (some ⟨22, 0⟩) (.junk 7) (.junk 8) ⟨0, 0, none⟩)).1.relays 77).map
       (fun rl => (rl.target, rl.peer)) = some (88, 4) := by decide
+
+/-! ## 7. the hop list names a path: hop k > 1 is only ever requested THROUGH hop k-1
+
+(added after seeded change m10 and the defect it pointed to on the unchanged tree, fixed in 4ca5f25: the retry cache of
+a completed first hop used to survive a failing candidate list, fire, and make the originator send a first-hop CREATE
+straight to an alternative first hop, whose answer was then recorded as hop 2) -/
+
+/-- over ALL traces from `Node.init` in which the public API `send_initial_create` is used as the test-suite uses it
+    (only on circuits without a verified hop): a circuit that has a verified hop never carries a retry cache of the
+    first-hop kind — whatever answers, forgeries, undecryptable candidate lists, timeouts and retries came before -/
+theorem no_first_hop_retry_after_first_hop (C : Crypto Tag Sess Blob) (evs : List (Ev Tag Blob)) (n : Node Sess)
+    (hinv : NoCreateRetryAfterHop n) (hapi : RunApiFresh C n evs) :
+    NoCreateRetryAfterHop (run C n evs) := by
+  induction evs generalizing n with
+  | nil => exact hinv
+  | cons e es ih => exact ih _ (no_create_retry_step C n e hinv hapi.1) hapi.2
+
+/-- ... so a retry-cache timeout on a circuit with a verified hop never emits a first-hop CREATE: it extends through
+    the existing hops or drops the circuit -/
+theorem timeout_after_first_hop_sends_no_create (C : Crypto Tag Sess Blob) (n : Node Sess) (cid : Nat)
+    (c : Circ Sess) (env : Env) (hinv : NoCreateRetryAfterHop n) (h0 : n.circuits cid = some c)
+    (hne : c.hops ≠ []) :
+    ∀ o ∈ (step C n (.retryTimeout cid env)).2, ∀ i k p w, o.msg ≠ Msg.create i k p w := by
+  simp only [step, retryTimeout, h0, Node.setCirc]
+  unfold onTimeout
+  cases hr : c.retry with
+  | none => intro o ho; simp at ho
+  | some r =>
+    have hk := hinv cid c h0 hne r hr
+    simp only [hk]
+    split
+    · intro o ho; simp at ho
+    · unfold sendExtend
+      simp only
+      generalize chooseTarget n.me { c with retry := none } r.cands env = ch
+      cases ch.1 with
+      | none => intro o ho; simp at ho
+      | some t =>
+        intro o ho i k p w
+        simp at ho
+        subst ho
+        simp
+
+/-- non-vacuity: `Node.init` satisfies the invariant; and the scenario of the defect on the model of the repaired code:
+    hop 2 accepted with an undecryptable candidate list → no retry cache is left, the timeout does nothing -/
+example : NoCreateRetryAfterHop (Node.init 1 false false : Node Secret) := by
+  intro cid c h; simp [Node.init] at h
+
+example :
+    let n := (step Free exNode (.created 77 555 (some ⟨20, 0⟩) (.mac [dh 10 20] ⟨20, 0⟩) (.junk 9) ⟨11, 556, none⟩)).1
+    ((n.circuits 77).map (fun c => (c.hops.map Hop.peer, c.retry)) = some ([2], none)) ∧
+      (step Free n (.retryTimeout 77 ⟨12, 557, none⟩)).2.length = 0 := by decide
+
+/-- relay: whatever happened on this node before (other circuit owners' extends included), an accepted EXTEND makes
+    the relay send exactly one CREATE, addressed to the owner of the key the EXTEND names, carrying the originator's
+    key bytes unchanged -/
+theorem extend_goes_to_named_key (n : Node Sess) (cid ident : Nat) (nodePk : Key) (key : Option Wire) (ag : Bool)
+    (toCid number : Nat) :
+    ∀ o ∈ (onExtend (Tag := Tag) (Blob := Blob) n cid ident nodePk key ag toCid number).2,
+      o.to = nodePk ∧ o.msg = Msg.create toCid number n.me key := by
+  unfold onExtend
+  split
+  · intro o ho; simp at ho
+  · split
+    · intro o ho; simp at ho
+    · split
+      · intro o ho; simp at ho
+      · split
+        · intro o ho; simp at ho
+        · intro o ho; simp at ho; subst ho; exact ⟨rfl, rfl⟩
 
 end Ipv8.C08
